@@ -61,6 +61,7 @@ type Exec struct {
 	closureID int64
 	global0   map[types.Object]*Term
 	notes     []string
+	captured  []*types.Var // for function literals verified on their own: variables of the enclosing function
 	fieldAsg  map[types.Object]map[int]bool
 	scopes    []*frameScope
 	retPos    []token.Pos
@@ -144,6 +145,50 @@ func (e *Engine) verifyFunc(key string) (x *Exec, err error) {
 	if fc == nil {
 		return nil, fmt.Errorf("no contract for %s", key)
 	}
+	var captured []*types.Var
+	if k := strings.Index(key, "#lit"); k >= 0 && fi == nil {
+		// a function literal inside key[:k], numbered in source order
+		parent := e.funcs[key[:k]]
+		if parent == nil {
+			return nil, fmt.Errorf("contract anchor missing: no function %s in the tree", key[:k])
+		}
+		var n int
+		fmt.Sscanf(key[k+4:], "%d", &n)
+		var lit *ast.FuncLit
+		cnt := 0
+		ast.Inspect(parent.Decl.Body, func(nd ast.Node) bool {
+			if l, ok := nd.(*ast.FuncLit); ok {
+				cnt++
+				if cnt == n {
+					lit = l
+				}
+			}
+			return true
+		})
+		if lit == nil {
+			return nil, fmt.Errorf("contract anchor missing: %s has no function literal number %d", key[:k], n)
+		}
+		sig, _ := parent.Pkg.TypesInfo.Types[lit].Type.(*types.Signature)
+		if sig == nil {
+			return nil, fmt.Errorf("no signature for %s", key)
+		}
+		obj := types.NewFunc(lit.Pos(), parent.Pkg.Types, parent.Obj.Name()+fmt.Sprintf("_lit%d", n), sig)
+		fi = &FuncInfo{Key: key, Pkg: parent.Pkg, Obj: obj,
+			Decl: &ast.FuncDecl{Name: ast.NewIdent(obj.Name()), Type: lit.Type, Body: lit.Body}}
+		// captured variables: declared in the parent, outside the literal
+		seen := map[types.Object]bool{}
+		ast.Inspect(lit.Body, func(nd ast.Node) bool {
+			if id, ok := nd.(*ast.Ident); ok {
+				if v, ok := parent.Pkg.TypesInfo.Uses[id].(*types.Var); ok && !v.IsField() && !seen[v] {
+					if v.Pkg() != nil && v.Parent() != v.Pkg().Scope() && (v.Pos() < lit.Pos() || v.Pos() > lit.End()) {
+						seen[v] = true
+						captured = append(captured, v)
+					}
+				}
+			}
+			return true
+		})
+	}
 	if fi == nil {
 		return nil, fmt.Errorf("contract anchor missing: no function %s in the tree", key)
 	}
@@ -151,6 +196,7 @@ func (e *Engine) verifyFunc(key string) (x *Exec, err error) {
 		heap0: map[string]*Term{}, heapSorts: map[string]Sort{}, entryVals: map[string]Val{},
 		heapified: map[types.Object]bool{}, usedSpecs: map[string]bool{}, trusted: map[string]bool{},
 		ord: map[string]int{}, closures: map[int64]*closure{}, global0: map[types.Object]*Term{}}
+	x.captured = captured
 	defer func() {
 		if r := recover(); r != nil {
 			switch r := r.(type) {
@@ -202,6 +248,9 @@ func (x *Exec) run() {
 	}
 	for i := 0; i < sig.Params().Len(); i++ {
 		bind(sig.Params().At(i))
+	}
+	for _, v := range x.captured {
+		bind(v)
 	}
 	// heapify address-taken parameters
 	for obj := range st.vars {
